@@ -1,6 +1,7 @@
 package props
 
 import (
+	"fmt"
 	"go/ast"
 	"go/token"
 	"go/types"
@@ -171,3 +172,91 @@ func C13array(p *load.Program, run *report.Run) {
 }
 
 var _ = load.Module
+
+// C13bytes: how many characters or elements a decoded value has is read from its type, not from the value.
+//
+// big.Int.Bytes() is the minimal big-endian encoding: leading zero bytes — for a little-endian-packed
+// string the *trailing* characters — are not there.  A decoding loop in mpc.Result whose trip count comes
+// from len(value.Bytes()) (or that ranges over it) yields "ok" for a string32 holding "ok\0\0": the width
+// the circuit declares is lost.  The bytes may be used for speed, with a bounds test inside a loop that
+// the type's width bounds.
+func C13bytes(p *load.Program, run *report.Run) {
+	const rule = "decode-length-from-type"
+	run.Rule(rule, "in mpc.Result no for statement has len(B) in its init or condition, and no range statement ranges over B, where B is (a variable assigned from) the Bytes() of a *big.Int: the number of characters/elements comes from the output's type")
+	pkg, fd := dispatch.FindFunc(p, "", "", "Result")
+	if fd == nil {
+		run.Undecided(rule, "Result", "", "function not found")
+		return
+	}
+	info := pkg.TypesInfo
+	isBigBytes := func(e ast.Expr) bool {
+		c, ok := ast.Unparen(e).(*ast.CallExpr)
+		if !ok || len(c.Args) != 0 {
+			return false
+		}
+		sel, ok := c.Fun.(*ast.SelectorExpr)
+		if !ok || sel.Sel.Name != "Bytes" {
+			return false
+		}
+		t := info.TypeOf(sel.X)
+		return t != nil && strings.HasSuffix(t.String(), "math/big.Int")
+	}
+	vars := map[types.Object]bool{}
+	ast.Inspect(fd.Body, func(n ast.Node) bool {
+		if as, ok := n.(*ast.AssignStmt); ok && len(as.Lhs) == 1 && len(as.Rhs) == 1 && isBigBytes(as.Rhs[0]) {
+			if id, ok := as.Lhs[0].(*ast.Ident); ok {
+				vars[info.ObjectOf(id)] = true
+			}
+		}
+		return true
+	})
+	isB := func(e ast.Expr) bool {
+		if isBigBytes(e) {
+			return true
+		}
+		id, ok := ast.Unparen(e).(*ast.Ident)
+		return ok && vars[info.ObjectOf(id)]
+	}
+	mentionsLen := func(n ast.Node) bool {
+		found := false
+		if n == nil {
+			return false
+		}
+		ast.Inspect(n, func(m ast.Node) bool {
+			if c, ok := m.(*ast.CallExpr); ok && len(c.Args) == 1 {
+				if id, ok := c.Fun.(*ast.Ident); ok && id.Name == "len" && isB(c.Args[0]) {
+					found = true
+				}
+			}
+			return true
+		})
+		return found
+	}
+	loops, bad := 0, 0
+	ast.Inspect(fd.Body, func(n ast.Node) bool {
+		switch t := n.(type) {
+		case *ast.ForStmt:
+			loops++
+			var cond ast.Node
+			if t.Cond != nil {
+				cond = t.Cond
+			}
+			if (t.Init != nil && mentionsLen(t.Init)) || mentionsLen(cond) {
+				bad++
+				run.Violate(rule, fmt.Sprintf("Result/loop#%d", loops), p.Rel(t.Pos()), "the trip count of this decoding loop comes from len(value.Bytes()): the minimal encoding drops the zero bytes at the top, so trailing NUL characters (or zero elements) of the declared width are lost", nil)
+			}
+		case *ast.RangeStmt:
+			loops++
+			if isB(t.X) {
+				bad++
+				run.Violate(rule, fmt.Sprintf("Result/loop#%d", loops), p.Rel(t.Pos()), "this decoding loop ranges over value.Bytes(): the minimal encoding drops the zero bytes at the top, so trailing NUL characters (or zero elements) of the declared width are lost", nil)
+			}
+		}
+		return true
+	})
+	run.Count("result-decoding-loops", loops)
+	if bad == 0 {
+		run.OK(rule, "Result", p.Rel(fd.Pos()), fmt.Sprintf("%d loops, none bounded by the value's byte length", loops))
+	}
+	run.Floor("result-decoding-loops", 2)
+}
